@@ -26,6 +26,21 @@ CHECKS = {
  "C10": ("7/C10", "TLC model check of BTree.tla + TLC validation of tree-shaped recordings of the real B-tree",
          "TLC checks BTree!Out against the ordered-map wording over a call history; every Put/Remove sequence over keys 0..5 to depth 5 (thorough 6) plus seeded long runs over 400 keys in ascending, descending and random order (multi-level splits) is executed on the real code with Size, IsEmpty, Height (2^Height <= max(1, distinct keys ever inserted)), Traverse and Get observed after every call.",
          "bounded scope plus seeded long runs; Height is an observed value constrained by the stated bound"),
+ "C11": ("7/C11", "TLA+ transcription of the helpers (SliceSet.tla) evaluated by TLC over star-shaped recordings of the real functions",
+         "every call of Unique/UniqueBy/Union/Intersection(By)/Difference(By)/Without/Duplicate(WithIndex) on all slices up to length 5 (thorough 6) over 3 values, all pairs up to length 3 (4) and triples up to 2 (3), all nestings to depth 3 incl. malformed elements, 4 key functions, plus seeded larger inputs is executed on the real code (panics recovered) and TLC decides res in Allowed(fn, args); Duplicate is judged as a set, the ...By helpers by the statement's relation.",
+         "bounded input scope; ints only (the helpers are generic and never inspect the element type); named callback family implemented in Go and in Fn.tla"),
+ "C12": ("7/C12", "TLA+ transcription of the helpers (Reshape.tla) evaluated by TLC over star-shaped recordings of the real functions",
+         "Chunk sizes 1..8, Drop counts -9..9, Partition/Filter/Reject/DropWhile/DropRightWhile/GroupBy with 5 predicates and 4 key functions on all slices up to length 6 (7) over 3 values, Merge, all square matrices up to 3x3 over 2 values for Zip/Unzip, all nestings to depth 3 for Flatten, Reverse/ReverseStr with their involution, Shuffle as a permutation, and the visit-once-in-order contract of Map/ForEach/ForEachRight/Reduce through a callback log; TLC decides each recorded call.",
+         "bounded input scope; Shuffle is only checked to be a permutation (the statement asks no more)"),
+ "C13": ("7/C13", "TLA+ transcription of the helpers (Search.tla) evaluated by TLC over star-shaped recordings of the real functions",
+         "IndexOf/LastIndexOf/FindIndex/FindLastIndex/FindAll/Contains/Some/Every/Nth (indices in [-len-3, len+3]) on all slices up to length 5 (6); FindMin/Max/Min/Max/...By/...ByKey incl. empty inputs; Sum/SumBy/Mean with Go's truncating division; Abs/Clamp/InRange over int8 triples around 0 and at the type bounds; Compare/Less/Equal/Enclose; Range/RangeRight for all (start, step, end) in [-10,10]^3 and the 1- and 2-argument forms; a panic is never an allowed result.",
+         "integer arithmetic only (floats, overflow beyond int8 wrap, NaN are out of reach of TLC's integers: stated limit in DESIGN section 10)"),
+ "C14": ("7/C14", "TLA+ transcription of the helpers (MapOps.tla) evaluated by TLC over star-shaped recordings of the real functions",
+         "all 256 maps over 4 keys x 3 values, key lists up to length 2, 5 value predicates, 4 pair predicates, 3 key transformations, collections of up to 3 maps; every call repeated 3 (8) times so that Go's randomised map iteration is exercised; helpers whose choice or order is unspecified (FindKey, FindByKey, Invert, MapUnique, MapKeys on collisions, Keys/Values order) are judged by their defining relation; SliceToMap's documented panic on unequal lengths is the only accepted panic.",
+         "bounded input scope; int keys and values"),
+ "C15": ("7/C15", "TLA+ transcription of the helpers (StrOps.tla) evaluated by TLC over star-shaped recordings of the real functions",
+         "strings over {a, B, 1, o-umlaut (2 bytes), space, -, _, &, *} up to 4 runes (sampled above length 2 in the quick tier), offsets/lengths/indices/sizes within +-3 of the byte length, 8 tokens incl. the empty one; Substr, Pad*, SplitAtIndex, Wrap/Unwrap (round trip and non-wrapped inputs), WrapAllRune, ReverseStr are exact byte/rune-level definitions; case mapping by an explicit table; Camel/Snake/Kebab by the relational clauses of the statement (letters and digits kept in order, own separator only, lower-case, idempotent, equal up to the delimiter).",
+         "Unicode case mapping only for the table in the spec; no coverage-guided fuzzing (other family); padding with an empty token is outside the stated domain"),
  "C19": ("7/C19", "TLC model check of List.tla + TLC validation of tree-shaped recordings of the real lists",
          "TLC checks List!Out against 'never empty' and 'no edit loses, duplicates or reorders the other elements'; every edit sequence (Unshift, Append, Shift, Pop, InsertAfter/InsertBefore/Delete/Replace on every value used so far and an absent one, handles from Find immediately before use) to depth 4 (thorough 5: 2.1 million nodes) on both list types plus seeded long runs that shrink to one element and regrow is executed on the real code with Each (twice, around the Finds), First, Last and Find of every value observed after every call; a panic is a result no outcome allows.",
          "bounded scope plus seeded long runs; distinct inserted values and fresh handles as the property's quantifier states; return values of Shift/Pop are not constrained (the statement does not)"),
